@@ -1172,6 +1172,33 @@ def const_int(fn, i):
     return None
 
 
+
+def integer_text_is_decimal(ctx, tag):
+    """Numbers in configuration text, xattrs and kernel files are decimal: every std::sto{i,l,ll,ul,ull} / strto{l,ll,ul,ull} in oomd's own
+    code converts with base 10 (the default, or a constant folding to 10).  Base 0 ("let the C library detect the base") reads a value
+    written with a leading zero - "050" - as octal: a threshold of 50 becomes 40 without any error."""
+    P = ctx.prog
+    n = 0
+    for f in sorted(P.fns.values(), key=lambda x: (x.file, x.line, x.usr)):
+        if not f.file.startswith("oomd/") or f.file.endswith("Test.cpp") or "fixtures" in f.file:
+            continue
+        for i in f.calls():
+            c = plain(f.nodes[i].get("callee") or "")
+            if not re.match(r"^(std::)?(sto(i|l|ll|ul|ull)|strto(l|ll|ul|ull|imax|umax))$", c):
+                continue
+            a = f.nodes[i].get("args", [])
+            n += 1
+            ctx.use(f)
+            base = const_int(f, a[2]) if len(a) >= 3 else 10
+            ctx.check(base == 10, "%s:integer-text-is-decimal:%s@%d" % (tag, short(f), f.nodes[i].get("line", 0)), "call-site argument (folded constant)", f.loc(i),
+                      "%s converts in base 10" % c,
+                      "%s is called with base %s in %s: the text is no longer read as the decimal number that was written (base 0 turns a leading zero into "
+                      "octal - \"050\" is 40 - and 0x.. into hex), so a threshold, size or count acts at a different value than the configured one"
+                      % (c, "?" if base is None else base, f.pq))
+    ctx.counters[tag + "_integer_conversions"] = n
+    ctx.floor(tag + "_integer_conversions", 5, "integer text conversions in oomd's own code")
+
+
 def inlined_condition_paths(fn, cn, call_node, want):
     """For a condition that is a folded helper call (`if (!helper(x))`, node class InlinedCall with its exits recorded): the lexical
     facts under which the folded body makes the condition evaluate to `want` - one list of (key, polarity) per such exit.  An exit that
